@@ -300,6 +300,31 @@ func fixedCases() []Case {
 			{K: "reopen", Doc: 2},
 			{K: "rmfn", IDKind: "live", Sel: 0, Doc: 2},
 		}},
+		// a document whose notes parts and numbering part were written by another producer (explicit w:type="normal",
+		// Word's separator pair and a continuationNotice entry, ids with gaps past 9, default namespace; second
+		// reopen: another prefix with w bound elsewhere, single quotes, reverse order, no special entries)
+		{Kind: "mixed", Ops: []Op{
+			{K: "footnote", Text: "a", Note: "fn one"},
+			{K: "footnote", Text: "b", Note: "fn <two> "},
+			{K: "endnote", Text: "c", Note: "en one"},
+			{K: "listitem", Text: "i", Type: "decimal", Level: 1, Start: 3},
+			{K: "bullet", Text: "j", Bullet: "•", Level: 0},
+			{K: "reopen", Foreign: &Dialect{Prefix: "-", TypeNormal: 1, Seps: 2, Notice: true, Stride: 3, Shift: 7, Split: 1, NumExtras: true,
+				AbsStride: 2, AbsShift: 10, NumStride: 1, NumShift: 9, SelfClose: true, RootExtra: true}},
+			{K: "rmfn", IDKind: "special", Sel: 2},
+			{K: "rmfn", IDKind: "live", Sel: 1},
+			{K: "footnote", Text: "d", Note: "fn three"},
+			{K: "endnote", Text: "e", Note: "en two"},
+			{K: "listitem", Text: "k", Type: "decimal", Level: 1, Start: 3},
+			{K: "listitem", Text: "l", Type: "upperRoman", Level: 2, Start: 0},
+			{K: "rmen", IDKind: "live", Sel: 0},
+			{K: "reopen", Foreign: &Dialect{Prefix: "ns0", WOther: true, Apos: true, Compact: true, Decl: 2, AttrRev: true, TypeNormal: 2, Seps: 1,
+				Reverse: true, Split: 3, NumReverse: true, Comments: true}},
+			{K: "rmfn", IDKind: "live", Sel: 0},
+			{K: "footnote", Text: "f", Note: "fn four"},
+			{K: "bullet", Text: "m", Bullet: "■", Level: 3},
+			{K: "rmfn", IDKind: "removed", Sel: 0},
+		}},
 		{Kind: "toc", Ops: []Op{
 			{K: "heading", Text: "z", Level: 2},
 			{K: "heading", Text: "a", Level: 1},
